@@ -80,7 +80,7 @@ func (g *jsgen) fn(d int, params, ret string) string {
 	return fmt.Sprintf("function(%s){ %s return %s; }", params, g.blk(d), ret)
 }
 
-const nStmtKinds = 46
+const nStmtKinds = 48
 
 func (g *jsgen) stmt(d int) string {
 	l0 := len(g.ctxStack)
@@ -376,7 +376,7 @@ func (g *jsgen) stmt2(k, d int) string {
 		if g.prev[nb].UsesJob {
 			g.usesJob = true
 		}
-		return fmt.Sprintf("r += NR(%d, %d);", nb, g.t.Draw(3))
+		return fmt.Sprintf("r += NR(%d, %d);", nb, g.t.Draw(4))
 	case 43:
 		if g.noNest {
 			return fmt.Sprintf("r += %s;", g.p())
@@ -384,13 +384,13 @@ func (g *jsgen) stmt2(k, d int) string {
 		switch g.t.Draw(3) {
 		case 0:
 			g.use("native-reentry:Callable")
-			return fmt.Sprintf("r += NC(%s, %d);", g.fn(d, "", "1"), g.t.Draw(3))
+			return fmt.Sprintf("r += NC(%s, %d);", g.fn(d, "", "1"), g.t.Draw(4))
 		case 1:
 			g.use("native-reentry:ExportTo-func")
-			return fmt.Sprintf("r += NF(%s, %d);", g.fn(d, "", "1"), g.t.Draw(3))
+			return fmt.Sprintf("r += NF(%s, %d);", g.fn(d, "", "1"), g.t.Draw(4))
 		default:
 			g.use("native-reentry:Constructor")
-			return fmt.Sprintf("NK(function(){ %s }, %d);", g.blk(d), g.t.Draw(3))
+			return fmt.Sprintf("NK(function(){ %s }, %d);", g.blk(d), g.t.Draw(4))
 		}
 	case 44:
 		if g.noNest {
@@ -413,6 +413,24 @@ func (g *jsgen) stmt2(k, d int) string {
 		default:
 			g.use("native-reentry:New")
 			return fmt.Sprintf("NN(function(){ %s });", g.blk(d))
+		}
+	case 46, 47:
+		// constructor activations (their new.target / this / home object registers must be unwound like everything else)
+		switch g.t.Draw(4) {
+		case 0:
+			g.use("function-constructor")
+			return fmt.Sprintf("new (function(){ %s })();", g.blk(d))
+		case 1:
+			g.use("Reflect.construct")
+			return fmt.Sprintf("Reflect.construct(function(){ %s }, []);", g.blk(d))
+		case 2:
+			g.use("class-constructor")
+			return g.withStrict(true, func() string { return fmt.Sprintf("new (class { constructor(){ %s } })();", g.blk(d)) })
+		default:
+			g.use("derived-constructor")
+			return g.withStrict(true, func() string {
+				return fmt.Sprintf("new (class extends (function(){ %s }) { constructor(){ try { r += %s; } finally { super(); } %s } })();", g.blk(d), g.p(), g.stmt(d))
+			})
 		}
 	case 45:
 		g.use("arguments/closure")
